@@ -277,6 +277,12 @@ def _elem_kind(ctx, f, e):
                 inner = x.value.args[0]
                 if isinstance(inner, (ast.GeneratorExp, ast.ListComp)):
                     kinds.add(of_value(g, inner.elt))
+                else:
+                    # set(<expression of an annotated container type>), e.g. set(keys(...)) with keys() -> List[str]
+                    ti = ctx.R.infer(g, inner)
+                    el = ti.elem() if ti is not None else None
+                    if el is not None and el.name in ("int", "str"):
+                        kinds.add(el.name)
     if isinstance(e, ast.Call) and fn_name(e) == "set" and e.args and isinstance(e.args[0], (ast.GeneratorExp, ast.ListComp)):
         kinds.add(of_value(f, e.args[0].elt))
     if not kinds:
@@ -334,8 +340,8 @@ def hash_order_sites(ctx, funcs):
             if how == "comprehension":
                 comp = par
                 cpar = getattr(comp, "_parent", None)
-                if isinstance(comp, (ast.SetComp, ast.DictComp)):
-                    continue
+                if isinstance(comp, ast.SetComp):
+                    continue    # (a dict comprehension is NOT order-free: the dict keeps the insertion order)
                 if isinstance(cpar, ast.Call) and isinstance(cpar.func, ast.Name) and cpar.func.id in ORDER_SAFE:
                     continue
             if how in ("list", "tuple", "iter") and isinstance(par, ast.Call) and isinstance(par.func, ast.Name) and par.func.id in ORDER_SAFE:
@@ -358,6 +364,11 @@ def s4(ctx, rep, sweep=False):
     for b in ("RungSystem",):
         owned |= ctx.down(b)
     funcs = [m for c in owned for m in c.methods.values()]
+    # ... and everything they reach over type-resolved call edges (helpers such as the hyperparameter-range encoders)
+    roots = [m for c in sc for m in c.methods.values()]
+    for g in reachable_from(ctx, roots):
+        if g not in funcs and g.module.name.startswith("syne_tune.optimizer"):
+            funcs.append(g)
     n = 0
     seen_constructs = set()
     for f, node, it, how in hash_order_sites(ctx, funcs):
